@@ -251,7 +251,9 @@ ASSUMPTIONS = [
     "small-step model (Model/LimiterConc.v): one transition per access to shared memory (fetch_add / store on `iteration`, the two "
     "halves of the window start, DashMap::clear shard by shard, the entry update atomic per key), sequentially consistent — the code "
     "uses Relaxed/Release atomics on independent cells whose values only steer sampling and window resets, and a lock per shard; "
-    "weak-memory reorderings between those cells are not modelled",
+    "weak-memory reorderings between those cells are not modelled - but the conclusions of the concurrent theorems do not depend on the "
+    "values read from them: the per-address upper bound holds along every control path, and with check_every <= 1 and no finite reset "
+    "time the path is fixed by the configuration alone",
     "one clock reading per call in the sequential model: register reads SystemTime::now() for the comparison and once more in update_time; "
     "the model uses the same reading for both (the small-step model gives every access its own reading, any value, so a clock that steps "
     "back is covered there and by the truncated subtraction of the sequential model; it cannot be provoked on the real code without "
